@@ -155,9 +155,9 @@ Definition nonroot (root : N) (s : list N) : list N := filter (fun r => negb (r 
    and sets outgoing_mask |= 1 << k for each of them *)
 Definition root_outs (n root : N) (sets : list (list N)) : list outp :=
   map (fun s => mk_output n root (nonroot root s)) sets.
+Definition has_remote (root : N) (s : list N) : bool := existsb (fun r => negb (r =? root)) s.
 Definition root_mask (root : N) (sets : list (list N)) : N :=
-  fold_left (fun acc k => match nonroot root (nth k sets []) with
-                          | [] => acc | _ => N.setbit acc (N.of_nat k) end)
+  fold_left (fun acc k => if has_remote root (nth k sets []) then N.setbit acc (N.of_nat k) else acc)
             (seq 0 (length sets)) 0.
 (* receiver: parsec_remote_dep_propagate iterates the successors of the outputs in
    msg.output_mask with parsec_gather_collective_pattern: every successor rank is a
